@@ -31,6 +31,11 @@ META = {
         text="C03_unpack (success implies the recomputed prefilter hash equals the requested id), C03_mismatch (parses but differs => exactly hash-mismatch), C03_corrupt_never_ok, C03_mirror (Commit only after a matching scan) are proved for every header list, filter, filesystem and hash function. The model is compared with the real Unpack and Mirror on wares altered after they were stored.",
         note="Trusted: Lean kernel; archive/tar + gzip decoding (the harness decodes the altered bytes for the model); the fetch stream.",
     ),
+    "C06": dict(
+        technique="Lean 4 theorems on the kernel path-walk model (scan ok => literal resolution => confined) + hostile-archive differential test on the real filesystem",
+        text="C06_literal / C06_confined: for every host state, if no prefix of an entry's name under the target is a symlink (what PlaceFile's scan establishes) and the name has no '..', the kernel resolves target/name literally, so every object created or changed lies under the target; C06_counter_without_scan shows the scan is necessary; C06_refuse_climbing; C06_tie pins the no-follow discipline of the osfs methods PlaceFile uses (T-fact). The hostile stream attacks the real unpackers and the CLI and compares the outside before/after.",
+        note="Trusted: Lean kernel; the kernel's no-follow / O_EXCL semantics; archive/tar decoding. The composition 'unpack loop + PlaceFile + osfs' is correspondence-tested, not proved end to end (partial).",
+    ),
     "C07": dict(
         technique="Lean 4 model of the resolver with theorems over the regenerated method table + three-way differential correspondence (model / osfs / kernel in-root resolution)",
         text="C07_discipline (every method whose host call follows a leaf symlink resolves the leaf in-base first) and C07_methods are proved over the method table regenerated from fs/osfs/osfs.go; C07_goesup_refused; the executable resolver model agrees with the real resolver on ~60k cases and the real resolver with openat2(RESOLVE_IN_ROOT) whenever both succeed. The general termination and no-links-in-result theorems are listed as open obligations in DESIGN.md (partial).",
